@@ -1,13 +1,13 @@
 package main
 
 import (
-	"syscall"
 	"context"
 	"fmt"
 	"os"
 	"path/filepath"
 	"strconv"
 	"strings"
+	"syscall"
 	"time"
 
 	"github.com/nextdns/nextdns/discovery"
